@@ -54,7 +54,8 @@ def units(tier):
 
 def meta(tier):
     return dict(bounds=dict(statements=SIMPLE, forms=["free", "fixed"], subsets="1 or 2 sentinel statements out of 2 slots between ordinary statements",
-                            continuation="one continuation at a token boundary, sentinel on both lines",
+                            continuation="one or two continuations at token boundaries (blank / comment line between), sentinel on all lines; free form: the statement's character literal continued in character context at every interior position",
+                            labels="fixed form: statement label in columns 3-5 of the conditional line (150, '15 ', ' 15', '  7')",
                             symbolic="one lexeme hole, the character after '!$' (free) / the sentinel letter and column 6 (fixed), the continuation '&' presence"),
                 assumptions=["ignore_comments=True for the comparisons; directives (!$omp) present in every program"],
                 budget_s=300, unit_budget_s=60, witness_every=5)
